@@ -13,7 +13,7 @@ from .C02 import ref_weight
 
 FUNCTIONS = ["init", "extend", "change", "rejuvenate", "resample", "ParticleCollection.log_marginal_likelihood/estimate/effective_sample_size",
              "_create_particle_collection", "rejuvenation_smc", "modular_vmap", "Fn.merge"]
-BOUNDS = {"N": "particle counts 1..3", "T": "rejuvenation_smc with 2 observations (one extend step), N = 2", "model": "step model x ~ N(prev, 1), y ~ N(x, 1/2), return x; custom proposals x ~ N(mix of obs and prev, 1)",
+BOUNDS = {"N": "particle counts 1..3", "T": "rejuvenation_smc with 2 observations (one extend step), N = 2", "model": "step model x ~ N(prev, 1), y ~ N(x, 1/2), return x; custom proposals x ~ N(mix of obs and prev, 1); a two-latent step model with PARTIAL custom proposals (the model samples the other latent itself)",
           "values": "all observation values, arguments, previous weights/particles and random outcomes"}
 ASSUMPTIONS = ["input particle collection: arbitrary log weights and an arbitrary coherent vectorised trace",
                "unbiasedness of exp(log_marginal_likelihood()) is the corollary of per-particle proper weighting (proved here), independence of the draws (site laws) and C12/C09",
